@@ -586,6 +586,13 @@ def withBounds (dataLen selfStart bStart bEnd : Int) (boundaryOk : Bool) : Res (
     (ckUsize (bEnd + selfStart)).bind fun b =>
       .ok (if a ≤ b ∧ b ≤ dataLen ∧ boundaryOk then some (a, b) else none)
 
+/-- `TupleSlice::with_bounds` since a83c277: the new bounds are relative to the slice and must lie within
+it (`bounds.start > bounds.end || bounds.end > self.bounds.len()` ⇒ `None`; `Range::len` saturates at 0)
+before the offsets are added -/
+def tupleWithBounds (dataLen selfStart selfEnd bStart bEnd : Int) : Res (Option (Int × Int)) :=
+  if bStart > bEnd ∨ bEnd > max 0 (selfEnd - selfStart) then .ok none
+  else withBounds dataLen selfStart bStart bEnd true
+
 /-- `StringSlice::with_bounds` since 42b084b: the new bounds must lie within the slice itself
 (`bounds.end > self.end - self.start` ⇒ `None`) before the offsets are added -/
 def stringWithBounds (dataLen selfStart selfEnd bStart bEnd : Int) (boundaryOk : Bool) : Res (Option (Int × Int)) :=
